@@ -573,6 +573,18 @@ class PyList(object):
         return 'PyList<sym %s len=%s>' % (self.tag, self.length)
 
 
+class GenericList(object):
+    """A list of unknown length of which only a generic element is known (result of a comprehension over a
+    symbolic string).  Only str.join / len / truthiness are modelled."""
+    __slots__ = ('elem',)
+
+    def __init__(self, elem):
+        self.elem = elem
+
+    def __repr__(self):
+        return 'GenericList(%r)' % (self.elem,)
+
+
 class PyDict(object):
     __slots__ = ('items', 'tag')
 
